@@ -13,6 +13,12 @@ double convoluted_blossom(const double *x, size_t nx, const double *y, size_t ny
 template <typename Alloc>
 void splinetable<Alloc>::convolve(const uint32_t dim, const double* conv_knots, size_t n_conv_knots)
 {
+	if(dim>=ndim)
+		throw std::runtime_error("Convolution dimension out of range (table has "
+		                         +std::to_string(ndim)+" dimensions)");
+	if(n_conv_knots==0)
+		throw std::runtime_error("Convolution kernel must have at least one knot");
+	
 	/* Construct the new knot field. */
 	size_t n_rho = 0;
 	const uint32_t convorder = order[dim] + n_conv_knots - 1;
